@@ -167,6 +167,7 @@ def _order_loops(loops):
 
 def _rename_loops(loops, guards, term):
     """positional loop names: ('loop', id, kind, it) -> ('loop', pos, '', it')"""
+    loops, guards, term = canon_inner_items((tuple(loops), tuple(guards), term))
     loops = _order_loops(loops)
     mapping = {}
     new_loops = []
@@ -207,6 +208,30 @@ def _rename_loops(loops, guards, term):
             t = t2
         return t
     return tuple(new_loops), tuple(sub_all(g) for g in guards), sub_all(term)
+
+
+def canon_inner_items(t):
+    """inside a term: a comprehension `for k, v in D.items()` whose pair is only ever taken apart is the key loop over D with
+    v = D[k] (the same canonical form _rename_loops gives to statement loops)"""
+    if not isinstance(t, tuple) or not t:
+        return t
+    if t[0] == "each" and len(t) == 4:
+        loops, guards, body = t[1], t[2], t[3]
+        for L in loops:
+            it = L[3] if len(L) > 3 else None
+            if isinstance(it, tuple) and len(it) == 5 and it[0] == "mcall" and it[2] == "items" and not it[3] and not it[4]:
+                e_ = ("elem", L)
+                srcs = list(guards) + [body] + [o[3] for o in loops if o is not L]
+                users = [x for src in srcs for x in subterms(src) if isinstance(x, tuple) and e_ in x[1:]]
+                if users and all(x[0] == "idx" and x[1] == e_ and x[2] in (K(0), K(1)) for x in users):
+                    NL = L[:3] + (it[1],) + L[4:]
+                    m = {("idx", e_, K(0)): ("elem", NL), ("idx", e_, K(1)): ("idx", it[1], ("elem", NL))}
+                    t2 = ("each", tuple(NL if o is L else o[:3] + (substitute(o[3], m),) + o[4:] for o in loops),
+                          tuple(substitute(g, m) for g in guards), substitute(body, m))
+                    # loops nested deeper may mention the old loop inside their elem terms
+                    t2 = substitute(t2, {L: NL})
+                    return canon_inner_items(t2)
+    return tuple(canon_inner_items(x) for x in t)
 
 
 def norm_iter(it):
@@ -735,3 +760,20 @@ def sequence_at_position(t, L):
         if at_pos:
             return t[1]
     return None
+
+
+def value_alternatives(t, guards=()):
+    """the alternatives of a value merged from several returns / branches: [(guards as (atom, polarity) pairs, value)], without
+    the alternatives whose guards contradict each other (`c` and `not c` on one path)"""
+    def lit(g, pol):
+        g = norm(g)
+        while is_app(g, "not") and len(g) == 3:
+            g, pol = g[2], not pol
+        return (g, pol)
+    if isinstance(t, tuple) and t and t[0] == "phi" and len(t) == 4:
+        return value_alternatives(t[2], guards + (lit(t[1], True),)) + value_alternatives(t[3], guards + (lit(t[1], False),))
+    held = {}
+    for g, pol in guards:
+        if held.setdefault(g, pol) != pol:
+            return []
+    return [(guards, t)]
